@@ -31,6 +31,7 @@ type nativeOp struct {
 	Val       sdk.ValAddress // validator (destination for redelegate)
 	Src       sdk.ValAddress // source validator (redelegate)
 	Amount    *big.Int
+	Denom     string         // denomination named by a signed message ("" = the bond denomination)
 	To        common.Address // transfer(): receiver
 	// MustReject != "": the call has to be refused whatever the native message would do
 	// (forged signed message class, or a documented refusal of the precompile itself).
@@ -122,19 +123,20 @@ type opResult struct {
 }
 
 type twinResult struct {
-	FeeErr     string
-	Price      *big.Int
-	OK         bool // root frame committed
-	Noop       bool // the only op had nothing to do (withdrawRewards with nothing above the threshold)
-	Rejected   string
-	Ops        []opResult
-	Logs       []expLog
-	Dump       vh.Dump // staking + distribution + bank stores of the branch after the native messages (only when OK)
-	Rewards    map[string]string
-	FeeOnly    vh.Dump // the same stores with nothing but the fee moved
-	FeeOnlyRewards map[string]string
-	WithdrawTo map[common.Address]bool
-	View       *viewExpect
+	FeeErr            string
+	Price             *big.Int
+	OK                bool // root frame committed
+	Noop              bool // the only op had nothing to do (withdrawRewards with nothing above the threshold)
+	Rejected          string
+	Ops               []opResult
+	Logs              []expLog
+	Dump              vh.Dump // staking + distribution + bank stores of the branch after the native messages (only when OK)
+	Rewards           map[string]string
+	FeeOnly           vh.Dump // the same stores with nothing but the fee moved
+	FeeOnlyRewards    map[string]string
+	WithdrawTo        map[common.Address]bool
+	MultiDenomRewards bool // a native withdraw_rewards event of this comparison paid out more than one denomination
+	View              *viewExpect
 }
 
 var errNoop = errors.New("nothing to withdraw above the minimum")
@@ -237,9 +239,28 @@ func (w *world) applyOp(ctx sdk.Context, op *nativeOp, tr *twinResult) (bool, []
 	}
 	res.OK = true
 	tr.Ops = append(tr.Ops, res)
+	for _, e := range cc.EventManager().Events() {
+		if e.Type != distrtypes.EventTypeWithdrawRewards {
+			continue
+		}
+		for _, a := range e.Attributes {
+			if a.Key == sdk.AttributeKeyAmount && strings.Contains(a.Value, ",") {
+				tr.MultiDenomRewards = true
+			}
+		}
+	}
 	logs := w.logsFromEvents(cc.EventManager().Events(), op.Delegator)
 	write()
 	return true, logs
+}
+
+// opCoin is the coin the corresponding native message carries: the amount in the denomination the call names.
+func opCoin(op *nativeOp) sdk.Coin {
+	c := coin(op.Amount)
+	if op.Denom != "" {
+		c.Denom = op.Denom
+	}
+	return c
 }
 
 func coin(a *big.Int) sdk.Coin {
@@ -265,14 +286,14 @@ func (w *world) native(ctx sdk.Context, op *nativeOp) error {
 	del := sdk.AccAddress(op.Delegator.Bytes()).String()
 	switch op.Action {
 	case "delegate":
-		_, err := w.stakeSrv.Delegate(ctx, &stakingtypes.MsgDelegate{DelegatorAddress: del, ValidatorAddress: op.Val.String(), Amount: coin(op.Amount)})
+		_, err := w.stakeSrv.Delegate(ctx, &stakingtypes.MsgDelegate{DelegatorAddress: del, ValidatorAddress: op.Val.String(), Amount: opCoin(op)})
 		return err
 	case "undelegate":
-		_, err := w.stakeSrv.Undelegate(ctx, &stakingtypes.MsgUndelegate{DelegatorAddress: del, ValidatorAddress: op.Val.String(), Amount: coin(op.Amount)})
+		_, err := w.stakeSrv.Undelegate(ctx, &stakingtypes.MsgUndelegate{DelegatorAddress: del, ValidatorAddress: op.Val.String(), Amount: opCoin(op)})
 		return err
 	case "redelegate":
 		_, err := w.stakeSrv.BeginRedelegate(ctx, &stakingtypes.MsgBeginRedelegate{DelegatorAddress: del, ValidatorSrcAddress: op.Src.String(),
-			ValidatorDstAddress: op.Val.String(), Amount: coin(op.Amount)})
+			ValidatorDstAddress: op.Val.String(), Amount: opCoin(op)})
 		return err
 	case "withdrawReward":
 		_, err := w.distSrv.WithdrawDelegatorReward(ctx, &distrtypes.MsgWithdrawDelegatorReward{DelegatorAddress: del, ValidatorAddress: op.Val.String()})
